@@ -951,3 +951,219 @@ Proof.
   cbv zeta. split; [vm_compute; reflexivity|]. split; [vm_compute; reflexivity|].
   split; [vm_compute; reflexivity|]. split; [vm_compute; reflexivity|]. vm_compute. discriminate.
 Qed.
+
+(* ------------------------------------------------------------------ C09_durability *)
+Section Durable.
+Variable deflate : bytes -> bytes.
+Variable inflate : bytes -> option bytes.
+Hypothesis inflate_deflate : forall p, inflate (deflate p) = Some p.
+Variable docs : list doc.
+Hypothesis docs_wf : Forall doc_wf docs.
+Hypothesis docs_schema : same_schema docs.
+Hypothesis docs_sig : forall a b, In a docs -> In b docs -> schema_sig a = schema_sig b.
+
+Let D := fun d : doc => In d docs.
+
+Lemma du_wf : forall d, D d -> doc_wf d.
+Proof. intros d Hd. unfold D in Hd. rewrite Forall_forall in docs_wf. apply docs_wf. exact Hd. Qed.
+
+Lemma du_dist : forall aware a b, D a -> D b -> map fst (flatten_doc a) = map fst (flatten_doc b) ->
+  (aware = true -> schema_sig a = schema_sig b) -> skeleton_doc a = skeleton_doc b.
+Proof. intros aware a b Ha Hb _ _. apply docs_schema; assumption. Qed.
+
+Definition DI (k : kind) (n : Z) (st : coll * writer) (gsw : list (list doc)) (g : list doc) : Prop :=
+  w_faults (snd st) = [] /\ wstream deflate (n - 1) (emitted (snd st)) gsw /\
+  Forall (fun x : list doc => glen x = n) gsw /\ glen g <= n /\
+  match k, fst st with
+  | KStream, CStream s => stream_inv D n s g
+  | KSDyn, CSDyn x => sdyn_inv D n x g
+  | _, _ => False
+  end.
+
+Lemma du_same_types : forall d g, D d -> Forall D g -> g <> [] -> same_types d g.
+Proof.
+  intros d g Hd Hg Hne. unfold same_types. apply flatten_types_same_schema. apply docs_schema; [exact Hd|].
+  destruct g as [|x r]; [congruence|]. inversion Hg; assumption.
+Qed.
+
+Lemma stream_inv_D : forall n s g, stream_inv D n s g -> Forall D g.
+Proof. intros n s g (b & _ & _ & _ & (_ & [Hd _] & _) & _). exact Hd. Qed.
+
+(* one accepted Add of the common schema through the streaming collector *)
+Lemma du_sc_add : forall aware n s g w d now, 1 <= n -> stream_inv D n s g -> w_faults w = [] -> D d ->
+  sigprem aware g d ->
+  (glen g < n /\ exists s', sc_add deflate s w d now = (s', w, ROk) /\ stream_inv D n s' (g ++ [d])) \/
+  (n <= glen g /\ exists out s', sc_add deflate s w d now = (s', w_push w out, ROk) /\
+                  wstream deflate (n - 1) out [g] /\ stream_inv D n s' [d]).
+Proof.
+  intros aware n s g w d now Hn Hinv Hf Hd Hsp.
+  destruct (Z_lt_le_dec (glen g) n) as [Hroom|Hfull].
+  - left. split; [exact Hroom|]. rewrite (sc_add_room deflate D n s g w d now Hinv Hroom).
+    destruct g as [|x r].
+    + apply (sc_tail_empty D aware du_wf (du_dist aware) n s w d now Hn Hinv Hd).
+    + destruct (sc_tail_room D aware du_wf (du_dist aware) n s (x :: r) w d now Hinv ltac:(discriminate) Hroom Hd Hsp)
+        as [(s' & Ht & Hs' & _)|(r' & _ & _ & Hnot)].
+      * exists s'. split; assumption.
+      * exfalso. apply Hnot. apply du_same_types; [exact Hd|apply (stream_inv_D n s _ Hinv)|discriminate].
+  - right. split; [exact Hfull|]. apply (sc_add_full deflate D aware du_wf (du_dist aware) n s g w d now Hn Hinv Hfull Hf Hd).
+Qed.
+
+Lemma du_sd_unchanged : forall n c g d, sdyn_inv D n c g -> g <> [] -> D d -> sd_changed c d = false.
+Proof.
+  intros n c g d [Hs Hh] Hne Hd. unfold sd_changed. destruct (sd_hash c) as [h|]; [|congruence].
+  destruct g as [|y r]; [congruence|]. specialize (Hh y (or_introl eq_refl)).
+  assert (Hy : D y). { pose proof (stream_inv_D n _ _ Hs) as HF. inversion HF; assumption. }
+  rewrite <- (docs_sig y d Hy Hd), Hh. cbn [fst snd]. rewrite Z.eqb_refl, cb_bytes_eqb_refl. reflexivity.
+Qed.
+
+Lemma du_step : forall k n c w gsw g d now, streaming k = true -> 1 <= n -> DI k n (c, w) gsw g -> D d ->
+  exists c' w' gsw' g', c_add deflate c w d now = (c', w', ROk) /\ DI k n (c', w') gsw' g' /\
+    concat gsw' ++ g' = (concat gsw ++ g) ++ [d] /\ 1 <= glen g'.
+Proof.
+  intros k n c w gsw g d now Hk Hn (Hf & Hws & Hfull & Hgl & Hc) Hd. cbn [fst snd] in *.
+  assert (Hpush : forall out, wstream deflate (n - 1) out [g] -> glen g = n ->
+            w_faults (w_push w out) = [] /\ wstream deflate (n - 1) (emitted (w_push w out)) (gsw ++ [g]) /\
+            Forall (fun x : list doc => glen x = n) (gsw ++ [g])).
+  { intros out Hout Hg. split; [reflexivity|]. split.
+    - rewrite emitted_push. apply wstream_app; assumption.
+    - apply Forall_app. split; [exact Hfull|]. constructor; [exact Hg|constructor]. }
+  destruct k; try discriminate Hk; destruct c as [b|b|x|s|x|u]; try contradiction; cbn [c_add].
+  - (* streaming *)
+    destruct (du_sc_add false n s g w d now Hn Hc Hf Hd ltac:(intros H; discriminate H))
+      as [(Hroom & s' & Hadd & Hs')|(Hfl & out & s' & Hadd & Hout & Hs')]; rewrite Hadd.
+    + exists (CStream s'), w, gsw, (g ++ [d]). split; [reflexivity|]. split.
+      * split; [exact Hf|]. split; [exact Hws|]. split; [exact Hfull|]. split; [rewrite glen_snoc; lia|exact Hs'].
+      * split; [rewrite app_assoc; reflexivity|]. rewrite glen_snoc. unfold glen. lia.
+    + destruct (Hpush out Hout ltac:(lia)) as (H1 & H2 & H3).
+      exists (CStream s'), (w_push w out), (gsw ++ [g]), [d]. split; [reflexivity|]. split.
+      * split; [exact H1|]. split; [exact H2|]. split; [exact H3|]. split; [change (glen [d]) with 1; lia|exact Hs'].
+      * split; [rewrite cp_concat_snoc; reflexivity|]. change (glen [d]) with 1. lia.
+  - (* streaming dynamic *)
+    pose proof Hc as [Hs Hh].
+    destruct (sd_changed x d) eqn:Ech.
+    + (* only possible while nothing is held *)
+      assert (Hg : g = []).
+      { destruct g as [|y r]; [reflexivity|]. rewrite (du_sd_unchanged n x (y :: r) d Hc ltac:(discriminate) Hd) in Ech. discriminate Ech. }
+      subst g.
+      destruct (sd_add_changed deflate D true du_wf (du_dist true) n x [] w d now Hn Hc Ech Hf Hd)
+        as (c' & w' & Hadd & Hc' & [[_ ->]|[Hne _]]); [|congruence].
+      rewrite Hadd. exists (CSDyn c'), w, gsw, [d]. split; [reflexivity|]. split.
+      * split; [exact Hf|]. split; [exact Hws|]. split; [exact Hfull|]. split; [change (glen [d]) with 1; lia|exact Hc'].
+      * split; [rewrite app_nil_r; reflexivity|]. change (glen [d]) with 1. lia.
+    + rewrite (sd_add_same_eq deflate x w d now Ech).
+      assert (Hsig : forall y, In y (g ++ [d]) -> schema_sig y = match sd_hash x with Some h => (h, sd_mcount x) | None => schema_sig y end).
+      { destruct (sd_hash_some x d Ech) as [h Eh]. rewrite Eh. rewrite Eh in Hh. intros y Hy. apply in_app_or in Hy.
+        destruct Hy as [Hy|[<-|[]]]; [apply Hh; exact Hy|].
+        unfold sd_changed in Ech. rewrite Eh in Ech. apply orb_false_iff in Ech. destruct Ech as [H1 H2].
+        apply negb_false_iff in H1, H2. apply Z.eqb_eq in H1. apply cb_bytes_eqb_true in H2.
+        destruct (schema_sig d). cbn [fst snd] in *. congruence. }
+      assert (Hsp : sigprem true g d).
+      { intros _ y Hy. destruct (sd_hash_some x d Ech) as [h Eh]. rewrite Eh in Hsig.
+        rewrite (Hsig y (in_or_app g [d] y (or_introl Hy))), (Hsig d (in_or_app g [d] d (or_intror (in_eq d [])))). reflexivity. }
+      destruct (du_sc_add true n (sd_s x) g w d now Hn Hs Hf Hd Hsp)
+        as [(Hroom & s' & Hadd & Hs')|(Hfl & out & s' & Hadd & Hout & Hs')]; rewrite Hadd.
+      * eexists (CSDyn _), w, gsw, (g ++ [d]). split; [reflexivity|]. split.
+        -- split; [exact Hf|]. split; [exact Hws|]. split; [exact Hfull|]. split; [rewrite glen_snoc; lia|].
+           split; [exact Hs'|]. cbn [sd_hash sd_mcount]. destruct (sd_hash_some x d Ech) as [h Eh]. rewrite Eh in *. exact Hsig.
+        -- split; [rewrite app_assoc; reflexivity|]. rewrite glen_snoc. unfold glen. lia.
+      * destruct (Hpush out Hout ltac:(lia)) as (H1 & H2 & H3).
+        eexists (CSDyn _), (w_push w out), (gsw ++ [g]), [d]. split; [reflexivity|]. split.
+        -- split; [exact H1|]. split; [exact H2|]. split; [exact H3|]. split; [change (glen [d]) with 1; lia|].
+           split; [exact Hs'|]. cbn [sd_hash sd_mcount]. destruct (sd_hash_some x d Ech) as [h Eh]. rewrite Eh in *.
+           intros y [<-|[]]. apply Hsig. apply in_or_app. right. left. reflexivity.
+        -- split; [rewrite cp_concat_snoc; reflexivity|]. change (glen [d]) with 1. lia.
+Qed.
+
+Lemma du_run : forall k n, streaming k = true -> 1 <= n ->
+  forall rest nows st gsw g, length nows = length rest -> (forall d, In d rest -> D d) -> DI k n st gsw g ->
+  (rest <> [] \/ 1 <= glen g \/ (gsw = [] /\ g = [])) ->
+  exists st' gsw' g', run deflate st (add_ops rest nows) = (st', map (fun _ => BAdd ROk) rest) /\
+    DI k n st' gsw' g' /\ concat gsw' ++ g' = (concat gsw ++ g) ++ rest /\
+    (1 <= glen g' \/ (gsw' = [] /\ g' = [])).
+Proof.
+  intros k n Hk Hn. induction rest as [|d rest IH]; intros nows st gsw g Hlen Hsub Hdi Hnz.
+  - exists st, gsw, g. destruct nows; [|discriminate Hlen]. split; [reflexivity|]. split; [exact Hdi|].
+    split; [rewrite app_nil_r; reflexivity|]. destruct Hnz as [H|H]; [congruence|exact H].
+  - destruct nows as [|now nows]; [discriminate Hlen|]. destruct st as [c w].
+    destruct (du_step k n c w gsw g d now Hk Hn Hdi (Hsub d (or_introl eq_refl))) as (c' & w' & gsw' & g' & Hadd & Hdi' & Hcat & Hpos).
+    destruct (IH nows (c', w') gsw' g' ltac:(cbn [length] in Hlen; lia) (fun x Hx => Hsub x (or_intror Hx)) Hdi' (or_intror (or_introl Hpos)))
+      as (st'' & gsw'' & g'' & Hrun & Hdi'' & Hcat'' & Hpos'').
+    exists st'', gsw'', g''. split.
+    + unfold add_ops. cbn [combine map run step fst snd]. rewrite Hadd. fold (add_ops rest nows). rewrite Hrun. reflexivity.
+    + split; [exact Hdi''|]. split; [|exact Hpos'']. rewrite Hcat'', Hcat, <- app_assoc. reflexivity.
+Qed.
+
+Lemma concat_full_length : forall n (gs : list (list doc)), Forall (fun x : list doc => glen x = n) gs ->
+  Z.of_nat (length (concat gs)) = n * Z.of_nat (length gs).
+Proof.
+  intros n gs H. induction H as [|g gs Hg _ IH]; [cbn; lia|].
+  cbn [concat length]. rewrite app_length. unfold glen in Hg. lia.
+Qed.
+
+Theorem c09_durability : forall k n nows, streaming k = true -> 1 <= n < 2 ^ 31 -> length nows = length docs ->
+  let res := run deflate (new_coll k n, mkWriter [] [] false) (add_ops docs nows) in
+  snd res = map (fun _ => BAdd ROk) docs /\
+  exists m, samples_in inflate (snd (fst res)) = Some m /\
+            n * ((Z.of_nat (length docs) - 1) / n) <= Z.of_nat m.
+Proof.
+  intros k n nows Hk Hn Hlen res. subst res.
+  assert (Hinit : DI k n (new_coll k n, mkWriter [] [] false) [] []).
+  { split; [reflexivity|]. split; [constructor|]. split; [constructor|]. split; [change (glen []) with 0; lia|].
+    destruct k; try discriminate Hk; cbn [fst new_coll]; [apply stream_new_inv|apply sd_new_inv]; lia. }
+  destruct (du_run k n Hk ltac:(lia) docs nows _ [] [] Hlen (fun d H => H) Hinit (or_intror (or_intror (conj eq_refl eq_refl))))
+    as (st' & gsw' & g' & Hrun & (Hf & Hws & Hfull & Hgl & _) & Hcat & Hpos).
+  rewrite Hrun. cbn [fst snd]. split; [reflexivity|].
+  destruct (decode_wstream deflate inflate inflate_deflate (n - 1) _ _ ltac:(lia) Hws) as [metas Hdec].
+  exists (length (concat gsw')). unfold samples_in. rewrite Hdec. cbn [dc_docs]. rewrite map_length.
+  split; [reflexivity|].
+  cbn [concat app] in Hcat. apply (f_equal (@length doc)) in Hcat. rewrite app_length in Hcat.
+  pose proof (concat_full_length n gsw' Hfull) as Hw.
+  destruct Hpos as [Hp|[-> ->]].
+  - unfold glen in Hp, Hgl. rewrite <- Hcat. rewrite Nat2Z.inj_add, Hw.
+    replace (n * Z.of_nat (length gsw') + Z.of_nat (length g') - 1) with ((Z.of_nat (length g') - 1) + Z.of_nat (length gsw') * n) by lia.
+    rewrite Z.div_add by lia. rewrite Z.div_small by lia. lia.
+  - assert (Hz : Z.of_nat (length docs) = 0) by (cbn [concat length] in Hcat; lia). rewrite Hz.
+    assert (H : (0 - 1) / n = -1). { symmetry. apply (Z.div_unique (0 - 1) n (-1) (n - 1)); lia. }
+    rewrite H. cbn [concat length Z.of_nat]. lia.
+Qed.
+
+End Durable.
+
+(* ------------------------------------------------------------------ non-vacuity *)
+Definition ex_dA (x : Z) : doc := [([120]%N, VInt64 x); ([115]%N, VBinary 128 [1; 2]%N)].
+Definition ex_dB : doc := [([120]%N, VInt64 9); ([121]%N, VDoc [([122]%N, VBool true)])].
+Definition ex_ops : list op :=
+  [OSetMeta (Some [([109]%N, VInt32 1)]); OAdd (ex_dA 1) 0; OAdd (ex_dA 2) 0; OAdd (ex_dA 3) 0; OAdd (ex_dA 3) 0;
+   OAdd ex_dB 5; OFlush].
+
+Theorem c09_example :
+  ops_ok KSDyn ex_ops /\ Forall op_frame_ok ex_ops /\ ops_fit 2 ex_ops /\ no_short [FError; FNone; FError] /\
+  snd (run sw_deflate (new_coll KSDyn 2, mkWriter [] [FError; FNone; FError] false) ex_ops) =
+    [BSetMeta; BAdd ROk; BAdd ROk; BAdd RFlush; BAdd ROk; BAdd RFlush; BFlush true] /\
+  c09_run sw_deflate sw_inflate KSDyn 2 [FError; FNone; FError] ex_ops = true /\
+  Forall (fun d => small (enc_doc d)) (emitted (snd (c09_reach sw_deflate KSDyn 2 [FError; FNone; FError] ex_ops))) /\
+  length (emitted (snd (c09_reach sw_deflate KSDyn 2 [FError; FNone; FError] ex_ops))) = 4%nat.
+Proof.
+  assert (Hin : forall d, ops_added ex_ops d -> d = ex_dA 1 \/ d = ex_dA 2 \/ d = ex_dA 3 \/ d = ex_dB).
+  { intros d [now Hd]. cbn [ex_ops In] in Hd.
+    destruct Hd as [H|[H|[H|[H|[H|[H|[H|[]]]]]]]]; try discriminate H; injection H as <- _; tauto. }
+  split.
+  { split.
+    - intros d Hd. destruct (Hin d Hd) as [-> |[-> |[-> | ->]]];
+        (split; [reflexivity|]; split; [reflexivity|]; split; [unfold small; vm_compute; reflexivity|];
+         split; [reflexivity|vm_compute; reflexivity]).
+    - intros a b Ha Hb Ht _.
+      destruct (Hin a Ha) as [-> |[-> |[-> | ->]]]; destruct (Hin b Hb) as [-> |[-> |[-> | ->]]];
+        try reflexivity; vm_compute in Ht; discriminate Ht. }
+  split. { repeat constructor. }
+  split.
+  { split; [vm_compute; discriminate|]. intros d Hd.
+    destruct (Hin d Hd) as [-> |[-> |[-> | ->]]]; vm_compute; discriminate. }
+  split. { repeat constructor. }
+  split; [vm_compute; reflexivity|]. split; [vm_compute; reflexivity|].
+  split; [|vm_compute; reflexivity].
+  apply Forall_forall. intros d Hd. unfold small.
+  assert (Hall : forallb (fun d => (N.of_nat (length (enc_doc d)) <? 2 ^ 31)%N)
+            (emitted (snd (c09_reach sw_deflate KSDyn 2 [FError; FNone; FError] ex_ops))) = true) by (vm_compute; reflexivity).
+  rewrite forallb_forall in Hall. apply N.ltb_lt. apply (Hall d Hd).
+Qed.
